@@ -1,6 +1,7 @@
 #!/bin/bash
-# run every quick check on the unchanged tree; print one line per check that does not exit 0
+# run every quick check on the unchanged tree; print one line per check that does not exit 0 (plus: undefined names in the rule modules)
 cd /verif; rc=0
+python3 tools/lint_rules.py || rc=1
 for i in 01 02 03 04 05 06 07 08 09 10 11 12 13 14 15 16 17 18 19 20; do ./check C$i >/tmp/all_quick_$i.log 2>&1 || { echo "FAIL C$i: $(grep -v '^KNOWN' /tmp/all_quick_$i.log | tail -n 2 | head -n 1 | cut -c1-200)"; rc=1; }; done
 [ $rc = 0 ] && echo "all 20 quick checks pass"
 exit $rc
